@@ -346,7 +346,7 @@ func rejects(outs []rig.Out) []rig.Out {
 
 func main() {
 	c := vk.Init("C06")
-	c.Rule(fmt.Sprintf("histories over an alphabet of %d symbols (3 good Logons at mid/min/max interval, 7 refused or damaged Logons, Heartbeat, TestRequest, 2 ResendRequests, Logout, application and unknown types, local Send, local Logout), both roles: EXHAUSTIVE over all histories up to length 3 (quick) / 4 (thorough), plus seeded random histories up to length 14 with varied heartbeat limits, plus real-time histories (N=1) in which the timers of an ended logon expire after a Logout before the next inbound message. Oracle: reference logon automaton transcribed from the statement, run against IsLogged / EventLogon / messages on Outgoing() after every step. distinct = distinct (role, limits, symbol sequence); non-trivial = the history contains a Logon decision", len(alpha)))
+	c.Rule(fmt.Sprintf("histories over an alphabet of %d symbols (3 good Logons at mid/min/max interval, 7 refused or damaged Logons, Heartbeat, TestRequest, 2 ResendRequests, Logout, application and unknown types, local Send, local Logout), both roles: EXHAUSTIVE over all histories up to length 3 (quick) / 4 (thorough), plus seeded random histories up to length 14 with varied heartbeat limits (every fifth: Min = Max), plus real-time histories (N=1) in which the timers of an ended logon expire after a Logout before the next inbound message. Oracle: reference logon automaton transcribed from the statement, run against IsLogged / EventLogon / messages on Outgoing() after every step. distinct = distinct (role, limits, symbol sequence); non-trivial = the history contains a Logon decision", len(alpha)))
 	c.Assume("step driver: unbuffered handler, barrier handlers registered after Session.Run, so outputs are attributed to steps exactly; heartbeat intervals >= 5 s and histories finish in milliseconds, so no timer fires inside a history (histories slower than 4 s are inconclusive)")
 	maxLen := c.Pick(3, 4)
 	nRandom := c.Pick(1500, 40000)
@@ -381,6 +381,9 @@ func main() {
 		r := c.Rand("c06-random", int64(i))
 		lo := 5 + r.Intn(20)
 		cfg := cfgT{role: rig.Role(r.Intn(2)), lim: [2]int{lo, lo + r.Intn(40)}, hb: 5 + r.Intn(50)}
+		if i%5 == 0 {
+			cfg.lim[1] = cfg.lim[0] // limits that allow exactly one interval
+		}
 		h := make([]int, 4+r.Intn(11))
 		for k := range h {
 			h[k] = r.Intn(len(alpha))
